@@ -116,9 +116,6 @@ func (ri *RunInfo) absorb(res simrt.Result) {
 	ri.Steps += res.Steps
 	ri.SimTime += res.SimElapsed
 	ri.Unknown += res.Unknown
-	if ri.Decisions == nil {
-		ri.Decisions = res.Decisions
-	}
 	if res.Choices >= 3 && res.Tasks >= 3 {
 		ri.Nontrivial = true
 	}
@@ -151,6 +148,46 @@ type RunCtx struct {
 	DiskDir string // fresh directory on tmpfs for this run
 	KeepLog bool
 	Log     []string
+	// decision tape spanning every simulated execution of the scenario
+	sc       *Scenario
+	cursor   int
+	execs    int
+	Recorded []uint64
+}
+
+// NextConfig returns the scheduler configuration for the next simulated
+// execution of the scenario. With an explicit tape the execution continues
+// where the previous one stopped; otherwise it draws from a seed derived from
+// the scenario's schedule seed and the execution number.
+func (rc *RunCtx) NextConfig() simrt.Config {
+	sc := rc.sc
+	c := simrt.Config{Seed: simrt.Mix(sc.Sched.Seed, uint64(rc.execs)), Policy: simrt.Policy(sc.Sched.Policy), PCTDepth: sc.Sched.PCTDepth, KeepLog: rc.KeepLog}
+	rc.execs++
+	if sc.Sched.Explicit || sc.Sched.Decisions != nil {
+		if rc.cursor < len(sc.Sched.Decisions) {
+			c.Replay = sc.Sched.Decisions[rc.cursor:]
+		} else {
+			c.Replay = []uint64{}
+		}
+	}
+	return c
+}
+
+// Done records what an execution consumed.
+func (rc *RunCtx) Done(res simrt.Result) {
+	rc.cursor += len(res.Decisions)
+	rc.Recorded = append(rc.Recorded, res.Decisions...)
+	if rc.KeepLog {
+		rc.Log = append(rc.Log, res.Log...)
+		rc.Log = append(rc.Log, fmt.Sprintf("== execution %d done: outcome=%s steps=%d decisions=%d", rc.execs, res.Outcome, res.Steps, len(res.Decisions)))
+	}
+}
+
+// ScratchConfig is for auxiliary executions whose decisions are not part of
+// the scenario's tape (e.g. the fault-free pre-run that only builds the fault menu).
+func (rc *RunCtx) ScratchConfig() simrt.Config {
+	sc := rc.sc
+	return simrt.Config{Seed: simrt.Mix(sc.Sched.Seed, 0xa0a0), Policy: simrt.Policy(sc.Sched.Policy), PCTDepth: sc.Sched.PCTDepth}
 }
 
 func (rc *RunCtx) Logf(format string, a ...any) {
@@ -174,21 +211,18 @@ func (rc *RunCtx) Bubble(f func()) (leak string) {
 // Sim runs main under the scheduler inside a fresh bubble. setup runs in the
 // bubble before the scheduler starts (pass-through mode); after runs in the
 // bubble after the scheduler finished (pass-through mode).
-func (rc *RunCtx) Sim(cfg simrt.Config, setup func(), main func(), after func(res simrt.Result)) (simrt.Result, string) {
+func (rc *RunCtx) Sim(setup func(), main func(), after func(res simrt.Result)) (simrt.Result, string) {
 	var res simrt.Result
-	cfg.KeepLog = rc.KeepLog
 	leak := rc.Bubble(func() {
 		if setup != nil {
 			setup()
 		}
-		res = simrt.Run(cfg, main)
+		res = simrt.Run(rc.NextConfig(), main)
+		rc.Done(res)
 		if after != nil {
 			after(res)
 		}
 	})
-	if rc.KeepLog {
-		rc.Log = append(rc.Log, res.Log...)
-	}
 	return res, leak
 }
 
@@ -318,9 +352,10 @@ func runOne(t *testing.T, p Property, sc *Scenario, diskRoot string, n int, keep
 		})
 		os.RemoveAll(dir)
 	}()
-	rc := &RunCtx{T: t, DiskDir: dir, KeepLog: keepLog}
+	rc := &RunCtx{T: t, DiskDir: dir, KeepLog: keepLog, sc: sc}
 	simrt.ShuffleMaps.Store(sc.Sched.ShuffleMaps)
 	info := p.Run(rc, sc)
+	info.Decisions = rc.Recorded
 	return info, rc
 }
 
@@ -396,8 +431,8 @@ func Main(t *testing.T) {
 			out.Violations = append(out.Violations, ViolationOut{Class: info.V.Class, Signature: info.V.Signature, Detail: info.V.Detail, Replay: rp})
 			fmt.Printf("REPLAY VIOLATION class=%s sig=%s\n%s\n", info.V.Class, info.V.Signature, info.V.Detail)
 		}
-		if os.Getenv("VERIF_SHOWLOG") != "" {
-			fmt.Println(strings.Join(rc.Log, "\n"))
+		if lp := os.Getenv("VERIF_LOGOUT"); lp != "" {
+			os.WriteFile(lp, []byte(strings.Join(rc.Log, "\n")+"\n"), 0o644)
 		}
 		return
 	}
@@ -457,13 +492,15 @@ func Main(t *testing.T) {
 		min := minimise(t, p, sc, info.V, diskRoot, known, tick)
 		min.Class, min.Detail = info.V.Class, info.V.Detail
 		// final detail from the minimised run
-		if mi, _ := runOne(t, p, cloneScenario(min), diskRoot, 0, false); mi.V != nil {
+		mi, mrc := runOne(t, p, cloneScenario(min), diskRoot, 0, true)
+		if mi.V != nil {
 			min.Class, min.Detail = mi.V.Class, mi.V.Detail
 		}
 		os.MkdirAll(replayDir, 0o755)
 		path := filepath.Join(replayDir, fmt.Sprintf("%s-%d-%d.json", p.ID(), base, idx))
 		b, _ := json.MarshalIndent(min, "", " ")
 		os.WriteFile(path, b, 0o644)
+		os.WriteFile(strings.TrimSuffix(path, ".json")+".log", []byte(strings.Join(mrc.Log, "\n")+"\n"), 0o644)
 		out.Violations = append(out.Violations, ViolationOut{Class: info.V.Class, Signature: info.V.Signature, Detail: min.Detail, Replay: path, Seed: sc.Seed, Index: idx})
 		break
 	}
